@@ -35,7 +35,7 @@ PROP = dict(
                 "service never serves it); stamps fit int64 and versions uint32; keys are folded in ASCII only; the tie is differential (sampled histories and documents)."),
     rule=("400 store histories (1-3 declared names of 5, 0-12 calls: lookup/read/poll/Close interleaved with server changes and clock ticks; 60% start from a cache: valid incl. "
           "undeclared/stale/version-0/empty-value entries, unreadable, invalid, truncated; 8% of writing calls have a failing Cache.Write) with restart + FileClient after every cache "
-          "change and at the end; 900 mutated documents and ~400 damaged byte strings each run through NewStore + poll + Close + reads; 48 three-lifetime scenarios (good run -> start with additional declared names that fails when the caller's context ends -> start from whatever the cache holds, service dead); 80 histories over caches that RETAIN the slice given to Write (own retaining cache / the real MemCache, a third of the writes failing), every retained payload re-read at the end; 60 histories in which a cache write takes 1-120 virtual seconds (testing/synctest) before further flushes; 150 hand-written FileClient files (Value/TextValue forms, outer white space); secret values with leading/trailing white-space bytes of every kind; 64 blocks of 2-3 CONCURRENT calls (lookups / Refresh / Close) with the first cache write held on a gate; 42 documents with valid entries followed by one the decoder rejects; 1 strace trace + 14 injections (7 system calls x "
+          "change and at the end; 900 mutated documents and ~400 damaged byte strings each run through NewStore + poll + Close + reads; 6 restart-from-FileCache scenarios with cache documents of 0.96-8.4 MB (direct verdict by length and SHA-256); 48 three-lifetime scenarios (good run -> start with additional declared names that fails when the caller's context ends -> start from whatever the cache holds, service dead); 80 histories over caches that RETAIN the slice given to Write (own retaining cache / the real MemCache, a third of the writes failing), every retained payload re-read at the end; 60 histories in which a cache write takes 1-120 virtual seconds (testing/synctest) before further flushes; 150 hand-written FileClient files (Value/TextValue forms, outer white space); secret values with leading/trailing white-space bytes of every kind; 64 blocks of 2-3 CONCURRENT calls (lookups / Refresh / Close) with the first cache write held on a gate; 42 documents with valid entries followed by one the decoder rejects; 1 strace trace + 14 injections (7 system calls x "
           "kill/EIO); a history is non-trivial if it has >= 2 cache writes and >= 2 restarts, a document case if the bytes parse as JSON, an injection if it hit; distinct by input"),
     explain=("a Cache.Write payload, the requests/values/versions of a store started from a given cache content, a restart with a dead service, a FileClient answer or the system-call "
              "shape of FileCache.Write differs from the model that provably satisfies C13"),
